@@ -129,6 +129,7 @@ def sum_add_job(it, func, args, kwargs):
     Ghost `sent`: replies in emission order.  (The sync pump's own order is C19's obligation.)"""
     self_, fn, rest = args[0], args[1], list(args[2:])
     g = it.ctx.ghost
+    is_set = False
     dest = None
     is_stream = False
     if isinstance(fn, BoundMethod) and isinstance(fn.self_val, Obj):
@@ -150,6 +151,11 @@ def sum_add_job(it, func, args, kwargs):
             new_pay = z3.Store(pay.term, c, z3.Store(z3.Select(pay.term, c), vt, lift(ops.to_str(it, m.fields["payload"]))[1]))
             g["setcount"] = GhostArr(new_cnt, cnt.roles, cnt.kind)
             g["setpay"] = GhostArr(new_pay, pay.roles, pay.kind)
+            is_set = True
+    if "rawjobs" in g:
+        key = "setjobs" if is_set else "rawjobs"
+        cur = g[key]
+        g[key] = ops.mk("int", lift(cur)[1] + 1)
     hook = getattr(it, "on_add_job", None)
     if hook is not None:
         hook(it, fn, rest)
@@ -171,13 +177,26 @@ def append_sent(it, r):
     g["sent"] = SeqVal("str", z3.Concat(sent.term, z3.Unit(t)), "list")
 
 
-def install(it, names=("validate", "add_job", "get_const", "copy")):
+crc16_modbus = z3.Function("crc16_modbus", z3.SeqSort(z3.BitVecSort(8)), z3.IntSort())
+
+
+def sum_compute_crc(it, func, args, kwargs):
+    """compute_crc(data): crcmod's 'modbus' CRC of the bytes, a 16-bit number (T-crc: equals the bitwise
+    CRC-16/MODBUS spec function; audited natively)."""
+    t = ops._seq_term(args[0])
+    r = crc16_modbus(t)
+    it.ctx.add_fact(z3.And(r >= 0, r <= 65535))
+    return ops.mk("int", r)
+
+
+def install(it, names=("validate", "add_job", "get_const", "copy", "compute_crc")):
     import mysensors.const
     import mysensors.message
     import mysensors.task
 
     table = {
         "copy": (("mysensors.message", "Message.copy"), sum_copy),
+        "compute_crc": (("mysensors.ota", "compute_crc"), sum_compute_crc),
         "validate": (("mysensors.message", "Message.validate"), sum_validate),
         "get_const": (("mysensors.const", "get_const"), sum_get_const),
     }
